@@ -5,10 +5,11 @@
      ProofsBits.v      single-bit reasoning on Style masks, table lemmas
      ProofsSpan.v      what one scanSpan call does to the span stack ([closes])
      ProofsLevel.v     per-level consistency of mask / clearMask / spanStack; the checker step
-     ProofsBrackets.v  the chain invariant and the bracket discipline of every run *)
+     ProofsBrackets.v  the chain invariant and the bracket discipline of every run
+     ProofsCompat.v    any two chunkings agree up to the place where ErrTooLong cuts one of them *)
 From Coq Require Import ZifyBool ZifyNat ZifyN.
 From XV Require Import lib.Bytes gen.Styling C17.Model.
-From XV Require Export C17.ProofsScan C17.ProofsRun C17.ProofsBits C17.ProofsSpan C17.ProofsLevel C17.ProofsBrackets.
+From XV Require Export C17.ProofsScan C17.ProofsRun C17.ProofsBits C17.ProofsSpan C17.ProofsLevel C17.ProofsBrackets C17.ProofsCompat.
 
 (* ---- termination, no panic ---- *)
 Lemma decode_ends input reads deof :
